@@ -7,6 +7,7 @@
   `all` is the argument list of `diff_jobs`.  Nothing is bounded: any number of jobs, any depth.
 -/
 import Signac.Proofs.SchemaSpec
+import Signac.Proofs.SchemaGate
 namespace Signac.C18
 open Signac Signac.Schema
 
@@ -203,5 +204,116 @@ example :
     NoBoolIntClash jobs ∧ "a" ∈ (detectSchema true jobs).map Prod.fst
       ∧ valueAt "a" ⟨"j2", [("a", .flt 1 0 "1.0")]⟩ = some (.flt 1 0 "1.0") := by
   exact ⟨noBoolIntClash_of_noBool (by decide), by decide, rfl⟩
+
+/-! ### schema gate of sync (P19) -/
+
+/- Model: Signac/SchemaGate.lean (`valSetEq`, `typedEq`, `schemaEq`, `schemaDifference`, `syncGate`);
+   lemmas: Signac/Proofs/SchemaGate.lean.  `SchemaWF s` = distinct keys, distinct type names per key,
+   every value list a set w.r.t. Python `==` (`pyEq`), every mapping inside a value has distinct keys —
+   i.e. `s` is something Python can hold.  `NodupKeysObj j.sp` = the state point is a Python dict
+   (distinct keys in every mapping, also inside lists). -/
+
+/-- A schema detected from Python-dict state points is well-formed. -/
+theorem detectSchema_wellformed (excl : Bool) (jobs : List Job) (hj : ∀ j ∈ jobs, NodupKeysObj j.sp) :
+    SchemaWF (detectSchema excl jobs) :=
+  Signac.Schema.detectSchema_wf excl hj
+
+/-- Without any hypothesis: distinct keys (`schema_keys_nodup`), distinct type names under each key,
+    and every reported value list is a set for Python `==`. -/
+theorem detectSchema_keys_nodup (excl : Bool) (jobs : List Job) :
+    ((detectSchema excl jobs).map Prod.fst).Nodup ∧
+      ∀ kv ∈ detectSchema excl jobs, (kv.2.map Prod.fst).Nodup ∧ ∀ tv ∈ kv.2, PyApart tv.2 :=
+  ⟨schema_keys_nodup' excl jobs, Signac.Schema.detectSchema_types_nodup excl jobs⟩
+
+/-- Mapping equality is reflexive on well-formed schemas … -/
+theorem schemaEq_refl (a : Schema) (h : SchemaWF a) : schemaEq a a = true :=
+  Signac.Schema.schemaEq_refl h
+
+/-- … and symmetric. -/
+theorem schemaEq_symm (a b : Schema) (ha : SchemaWF a) (hb : SchemaWF b) :
+    schemaEq a b = schemaEq b a :=
+  Signac.Schema.schemaEq_symm ha hb
+
+/-- With distinct keys only: both differences are empty iff the schemas are equal BOTH ways … -/
+theorem difference_empty_iff_nodup (a b : Schema)
+    (ha : (a.map Prod.fst).Nodup) (hb : (b.map Prod.fst).Nodup) :
+    (schemaDifference false a b = [] ∧ schemaDifference false b a = []) ↔
+      (schemaEq a b = true ∧ schemaEq b a = true) :=
+  Signac.Schema.difference_empty_iff' ha hb
+
+/-- … and on well-formed schemas iff they are equal: the inner test of the gate is redundant.
+    (One-sided equality needs more than distinct keys: `difference_empty_iff_needs_sets`.) -/
+theorem difference_empty_iff (a b : Schema) (ha : SchemaWF a) (hb : SchemaWF b) :
+    (schemaDifference false a b = [] ∧ schemaDifference false b a = []) ↔ schemaEq a b = true :=
+  Signac.Schema.difference_empty_iff ha hb
+
+/-- `difference` lists no key twice. -/
+theorem difference_nodup (ig : Bool) (a b : Schema) (ha : (a.map Prod.fst).Nodup) :
+    (schemaDifference ig a b).Nodup :=
+  Signac.Schema.schemaDifference_nodup ha
+
+/-- The gate of `sync_projects` fires iff both detected schemas are non-empty and not equal
+    (no hypothesis: the direction used needs distinct keys only). -/
+theorem syncGate_simple (src dst : List Job) :
+    syncGate src dst =
+      (!(detectSchema false src).isEmpty && !(detectSchema false dst).isEmpty &&
+        !schemaEq (detectSchema false src) (detectSchema false dst)) :=
+  Signac.Schema.syncGate_simple src dst
+
+/-- The gate does not depend on the direction of the synchronisation. -/
+theorem syncGate_symm (a b : List Job) (ha : ∀ j ∈ a, NodupKeysObj j.sp)
+    (hb : ∀ j ∈ b, NodupKeysObj j.sp) : syncGate a b = syncGate b a :=
+  Signac.Schema.syncGate_symm ha hb
+
+/-- A project never has a schema conflict with itself. -/
+theorem syncGate_same (jobs : List Job) (h : ∀ j ∈ jobs, NodupKeysObj j.sp) :
+    syncGate jobs jobs = false :=
+  Signac.Schema.syncGate_same h
+
+/-- A project without jobs, or whose jobs all have the empty state point, has the empty schema … -/
+theorem detectSchema_empty (excl : Bool) (jobs : List Job) (h : ∀ j ∈ jobs, j.sp = []) :
+    detectSchema excl jobs = [] :=
+  Signac.Schema.detectSchema_empty excl h
+
+/-- … and never trips the gate, as source … -/
+theorem syncGate_empty_left (src dst : List Job) (h : ∀ j ∈ src, j.sp = []) :
+    syncGate src dst = false :=
+  Signac.Schema.syncGate_empty_left dst h
+
+/-- … or as destination. -/
+theorem syncGate_empty_right (src dst : List Job) (h : ∀ j ∈ dst, j.sp = []) :
+    syncGate src dst = false :=
+  Signac.Schema.syncGate_empty_right src h
+
+/-- `ignore_values=True` reports a subset of what `ignore_values=False` reports … -/
+theorem difference_ignore_subset (a b : Schema) :
+    ∀ k ∈ schemaDifference true a b, k ∈ schemaDifference false a b :=
+  Signac.Schema.difference_ignore_subset
+
+/-- … namely exactly the keys of `a` that are not keys of `b`. -/
+theorem difference_ignore_keys (a b : Schema) (k : String) :
+    k ∈ schemaDifference true a b ↔ k ∈ a.map Prod.fst ∧ k ∉ b.map Prod.fst :=
+  Signac.Schema.difference_ignore_keys
+
+/-- Membership in `difference` in general. -/
+theorem difference_mem (ig : Bool) (a b : Schema) (k : String) :
+    k ∈ schemaDifference ig a b ↔
+      ∃ v, (k, v) ∈ a ∧ (alookup k b = none ∨
+        (ig = false ∧ ∃ w, alookup k b = some w ∧ typedEq w v = false)) :=
+  Signac.Schema.mem_schemaDifference
+
+/-- F-6a again: the gate is NOT invariant under re-ordering the jobs of a project (`{a: True},{a: 1}`
+    against `{a: True}` is silent, `{a: 1},{a: True}` against `{a: True}` fires). -/
+theorem syncGate_perm_false :
+    ¬ (∀ src src' dst : List Job, src.Perm src' → syncGate src dst = syncGate src' dst) :=
+  Signac.Schema.syncGate_perm_false
+
+/-- non-vacuity: the gate fires on `{a: 1}` / `{a: 2}` and on `{a: 1}` / `{a: 1.0}`, is silent on the
+    same values in another job order and when one side has no state point keys -/
+example : syncGate [⟨"j1", [("a", .int 1)]⟩] [⟨"j2", [("a", .int 2)]⟩] = true
+    ∧ syncGate [⟨"j1", [("a", .int 1)]⟩] [⟨"j2", [("a", .flt 1 0 "1.0")]⟩] = true
+    ∧ syncGate [⟨"j1", [("a", .int 1)]⟩, ⟨"j2", [("a", .int 2)]⟩]
+               [⟨"j3", [("a", .int 2)]⟩, ⟨"j4", [("a", .int 1)]⟩] = false
+    ∧ syncGate [⟨"j1", [("a", .int 1)]⟩] [⟨"j0", []⟩] = false := by decide
 
 end Signac.C18
